@@ -138,6 +138,20 @@ def run_enum(case):
     return res
 
 
-PROFILES = {"solve": Profile("solve", lambda: sc.scenarios(PROF), run, quick=4000, thorough=100000, timeout=120),
+@st.composite
+def cases(draw):
+    c = draw(sc.scenarios(PROF))
+    if c["fam"] == "lin" and not c.get("noise") and draw(st.integers(0, 19)) == 0:
+        # residuals in tiny units (1e-18): every true Jacobian entry is below machine epsilon in absolute terms; the statement is
+        # relative ("up to rounding amplified by the conditioning"), so nothing may depend on an absolute threshold
+        sc_ = 10.0 ** -draw(st.sampled_from([17, 18, 20]))
+        c["A"] = [[v * sc_ for v in row] for row in c["A"]]
+        c["b"] = [v * sc_ for v in c["b"]]
+        c["up"]["model.abs_tol"] = 1e-80
+        c["tags"] = sorted(set(c["tags"] + ["tiny-units"]))
+    return c
+
+
+PROFILES = {"solve": Profile("solve", cases, run, quick=4000, thorough=100000, timeout=120),
             "budget-enum": Profile("budget-enum", enum_cases, run_enum, quick=120, thorough=4000, timeout=600)}
 KNOWN = {}
